@@ -18,6 +18,8 @@ const WORDS: &[&str] = &[
     "Add", "the", "and", "mix", "until", "combined", "then", "bake", "for", "about", "Let", "rest",
     "Préchauffer", "à", "stir", "well", "180 °C", "20 ºC", "350 F", "1/2", "3", "–", "ñ", "🍅",
     "2 cups", "2 Cups", "5 min", "5 Min", "3 c", "3 C", "100 g", "100 G",
+    // short block comments and other comment shapes
+    "[- x -]", "[--]", "[-a-]", "[- ok -]", "[- v2 -]", "[-  -]", "[- or -]", "a[-b-]c",
 ];
 const META_KEYS: &[&str] = &[
     "time", "prep time", "cook time", "servings", "tags", "source", "author", "title",
@@ -51,7 +53,9 @@ fn number(r: &mut Rng) -> String {
 
 /// a unit, sometimes with unusual letter case (units are case-sensitive: `c` is a cup, `C` is Celsius)
 fn unit(r: &mut Rng, units: &[&str]) -> String {
-    let u = r.pick_str(units).to_string();
+    // one unit in six comes from the bundled units file itself (names, symbols, aliases)
+    let d = crate::dict::get();
+    let u = if !d.units.is_empty() && r.chance(1, 6) { r.pick(&d.units).clone() } else { r.pick_str(units).to_string() };
     match r.below(8) {
         0 => u.to_uppercase(),
         1 => {
@@ -160,6 +164,15 @@ fn step(r: &mut Rng, seen: &mut Vec<String>, invalid: bool) -> String {
             }),
             6 if r.chance(1, 3) => {
                 s.push_str("-- trailing comment");
+            }
+            7 if r.chance(1, 3) => {
+                // a token from the library's own source (see dict.rs)
+                let d = crate::dict::get();
+                if !d.recipe.is_empty() {
+                    s.push_str(&d.recipe[r.below(d.recipe.len())]);
+                } else {
+                    s.push_str(r.pick_str(WORDS));
+                }
             }
             _ => s.push_str(r.pick_str(WORDS)),
         }
@@ -355,6 +368,17 @@ pub fn aisle_structured(r: &mut Rng) -> String {
             let mut line = String::new();
             for j in 0..nn {
                 let mut n = r.pick(AISLE_NAMES).to_string();
+                {
+                    let d = crate::dict::get();
+                    if !d.aisle.is_empty() && r.chance(1, 10) {
+                        let t = r.pick(&d.aisle).clone();
+                        n = match r.below(3) {
+                            0 => format!("{t}{n}"),
+                            1 => format!("{n}{t}"),
+                            _ => t,
+                        };
+                    }
+                }
                 if !dup_ok && used.contains(&n) {
                     n = format!("{n}{}", used.len());
                 }
@@ -396,9 +420,15 @@ pub const AISLE_ALPHABET: &[&str] = &[
 pub fn aisle_soup(r: &mut Rng) -> String {
     let n = r.range(0, 14);
     let k = if r.chance(1, 2) { 7 } else { AISLE_ALPHABET.len() };
+    let d = crate::dict::get();
+    let with_dict = !d.aisle.is_empty() && r.chance(1, 2);
     let mut s = String::new();
     for _ in 0..n {
-        s.push_str(AISLE_ALPHABET[r.below(k)]);
+        if with_dict && r.chance(1, 3) {
+            s.push_str(&d.aisle[r.below(d.aisle.len())]);
+        } else {
+            s.push_str(AISLE_ALPHABET[r.below(k)]);
+        }
     }
     s
 }
